@@ -8,7 +8,7 @@ import cfgs as C
 import fields as F
 import hist as H
 import props.cfgprops as P
-from core import Result, stable
+from core import Result, stable, guard
 
 RULE = ("the C01 history stream restricted to declared paths with invalid and wrongly-typed arguments up-weighted (every declared leaf "
         "path x value kinds x routes: dotted item assignment, chained attribute assignment, load_tree; lists of configurations, typed dicts, "
@@ -314,9 +314,9 @@ def container_path_stream(ctx, res, n):
 def run(ctx, n_quick=250, n_thorough=8000):
     res = Result()
     P.run_stream(ctx, res, "C15", ctx.n(n_quick, n_thorough), oracle, gen_ops=gen_ops, ops_len=(8, 20))
-    doc_stream(ctx, res, ctx.n(40, 1500))
-    include_docs(ctx, res)
-    container_path_stream(ctx, res, ctx.n(150, 4000))
+    guard(res, "C15", doc_stream, ctx, res, ctx.n(40, 1500))
+    guard(res, "C15", include_docs, ctx, res)
+    guard(res, "C15", container_path_stream, ctx, res, ctx.n(150, 4000))
     return res
 
 
